@@ -23,11 +23,11 @@ Functions under contract (real text of /repo/src/read/op.rs, extracted on every 
       max(old, m) + 1 and a run that returns Ok never went past m -- one loop iteration = one evaluate_one_operation plus at
       most one extra Operation::parse (visible in the text: the loop body has exactly these two decode sites).
 
-FINDING reported by this batch (exit 1 on the pinned tree; native reproducer native/src/bin/f_op_eval_1.rs):
-  F-op-eval-1  `self.iteration += 1` in evaluate_internal: possible arithmetic overflow.  The u32 counter is incremented
-      before the limit test; with no limit (the default) or with the limit u32::MAX a looping expression (`DW_OP_skip -3`)
-      overflows it after 2^32 operations -> panic in an overflow-checked build.  The tagged assertion
-      [C01:iteration-counter-no-overflow-with-limit] proves the complement: limit m < u32::MAX and counter <= m on entry => no overflow.
+Finding F-op-eval-1 (found by this batch, fixed in /repo commit 58e76a9; native reproducer native/src/bin/f_op_eval_1.rs):
+  `self.iteration += 1` in evaluate_internal overflowed the u32 counter after 2^32 operations of a looping expression when no
+  limit (or the limit u32::MAX) was set -> panic in an overflow-checked build.  The statement is now
+  `self.iteration = self.iteration.saturating_add(1);`; [C01:iteration-counter-no-overflow] states that the counter counts
+  exactly one per loop iteration until it saturates at u32::MAX and never wraps (so the limit test cannot be defeated).
 
 Assumed (TRUSTED; everything else in the generated file is verified):
   ArrayVec model (struct ArrayVec, ArrayVec::{new, try_push, pop}, Default::default, Deref::deref, Debug::fmt,
@@ -41,10 +41,12 @@ Logged rewrites: R-CLOSURE-ENS (`.map_err(|_| Error::StackFull)` gets the verifi
   un-annotated closure has no spec in Verus), R-CLONE (5 reader clones), R-ASSERT for the message-less `panic!()` in evaluate.
 Dropped: Evaluation::result (ArrayVec::into_vec is Vec::from_raw_parts), Expression's other impls, Iterator/FallibleIterator adaptors.
 
-Not decided here: that a step never fails *spuriously* (the decode contract of B-op says nothing about when parse succeeds, so
-  every step clause is "Ok => exact effect"; a mutant that only adds error returns is caught only where it breaks a built-in
-  obligation); the error *value* of a failed step other than pop/push's own; termination of evaluate_internal without a limit
-  (non-termination on a looping program is the documented behaviour; the function carries exec_allows_no_decreases_clause and
+Totality: for every operation whose operands have a fixed size (B-op proves [C07:decode-total] for those) the table TOTAL gives
+  the side conditions of the standard under which the step *must* return Ok ([C07:step-total-<group>]: stack, arith, compare,
+  control, request, location) -- so an added error return / a too strict depth, capacity, size or branch-target test is caught.
+Not decided here: totality for operations with LEB128 / address-size / offset-size / block operands (B-op has no totality
+  clause for their decoding); the error *value* of a failed step other than pop/push's own; termination of evaluate_internal
+  without a limit (non-termination on a looping program is the documented behaviour; the function carries exec_allows_no_decreases_clause and
   the bound is proved on the counter instead); errors returned by resume_with_* and by the initial-value push are not latched
   into EvaluationState::Error (only errors of evaluate's run are) -- observed, not a property clause; whole-program equality
   with a reference interpreter (induction over the step contract, not mechanised); Value arithmetic (K-VALUE).
@@ -277,6 +279,65 @@ LETS = 'let s = a.stack@; let n = s.len() as int; let m = a.addr_mask; let cap =
 GEN = '<R: Reader<Offset = usize>, S: EvaluationStorage<R>>(a: Evaluation<R, S>, z: Evaluation<R, S>, r: OperationEvaluationResult<R>) -> bool'
 
 
+# ---- totality ("a step never fails spuriously") for the operations whose operands have a fixed size: B-op proves
+# [C07:decode-total] for them, so "the bytes are there and the side conditions of the standard hold => the step returns Ok".
+# name -> (group, side condition over s, n, m, cap, operands)
+def _bin_ok(f):
+    return f'n >= 2 && value_{f}(s[n - 2], s[n - 1], m) is Ok'
+
+
+def _deref_ok(size, space):
+    k = 2 if space else 1
+    return (f'{size} <= a.encoding.address_size && n >= {k} && value_to_u64(s[n - 1], m) is Ok' + (' && value_to_u64(s[n - 2], m) is Ok' if space else ''))
+
+
+BR_T = '(b0.start + 3 - a.bytecode.rv().start) as int + o0'
+TOTAL = {
+    'DW_OP_deref': ('request', _deref_ok('a.encoding.address_size', False)), 'DW_OP_xderef': ('request', _deref_ok('a.encoding.address_size', True)),
+    'DW_OP_deref_size': ('request', _deref_ok('o0', False)), 'DW_OP_xderef_size': ('request', _deref_ok('o0', True)),
+    'DW_OP_const1u': ('stack', 'n < cap'), 'DW_OP_const1s': ('stack', 'n < cap'), 'DW_OP_const2u': ('stack', 'n < cap'), 'DW_OP_const2s': ('stack', 'n < cap'),
+    'DW_OP_const4u': ('stack', 'n < cap'), 'DW_OP_const4s': ('stack', 'n < cap'), 'DW_OP_const8u': ('stack', 'n < cap'), 'DW_OP_const8s': ('stack', 'n < cap'),
+    'lit': ('stack', 'n < cap'),
+    'DW_OP_dup': ('stack', '0 < n && n < cap'), 'DW_OP_over': ('stack', '1 < n && n < cap'), 'DW_OP_pick': ('stack', 'o0 < n && n < cap'),
+    'DW_OP_drop': ('stack', 'n >= 1'), 'DW_OP_swap': ('stack', 'n >= 2'), 'DW_OP_rot': ('stack', 'n >= 3'), 'DW_OP_nop': ('stack', 'true'),
+    'DW_OP_push_object_address': ('stack', 'a.object_address is Some && n < cap'),
+    'DW_OP_abs': ('arith', 'n >= 1 && value_abs(s[n - 1], m) is Ok'), 'DW_OP_neg': ('arith', 'n >= 1 && value_neg(s[n - 1], m) is Ok'),
+    'DW_OP_not': ('arith', 'n >= 1 && value_not(s[n - 1], m) is Ok'),
+    'DW_OP_and': ('arith', _bin_ok('and')), 'DW_OP_div': ('arith', _bin_ok('div')), 'DW_OP_minus': ('arith', _bin_ok('sub')), 'DW_OP_mod': ('arith', _bin_ok('rem')),
+    'DW_OP_mul': ('arith', _bin_ok('mul')), 'DW_OP_or': ('arith', _bin_ok('or')), 'DW_OP_plus': ('arith', _bin_ok('add')), 'DW_OP_shl': ('arith', _bin_ok('shl')),
+    'DW_OP_shr': ('arith', _bin_ok('shr')), 'DW_OP_shra': ('arith', _bin_ok('shra')), 'DW_OP_xor': ('arith', _bin_ok('xor')),
+    'DW_OP_eq': ('compare', _bin_ok('eq')), 'DW_OP_ge': ('compare', _bin_ok('ge')), 'DW_OP_gt': ('compare', _bin_ok('gt')), 'DW_OP_le': ('compare', _bin_ok('le')),
+    'DW_OP_lt': ('compare', _bin_ok('lt')), 'DW_OP_ne': ('compare', _bin_ok('ne')),
+    'DW_OP_bra': ('control', f'{BRANCH_PRE} && n >= 1 && (value_to_u64(s[n - 1], m) matches Ok(c) && (c != 0 ==> 0 <= {BR_T} <= a.bytecode.rv().len))'),
+    'DW_OP_skip': ('control', f'{BRANCH_PRE} && 0 <= {BR_T} <= a.bytecode.rv().len'),
+    'reg': ('location', 'true'), 'DW_OP_stack_value': ('location', 'n >= 1'),
+    'DW_OP_call2': ('request', 'true'), 'DW_OP_call4': ('request', 'true'), 'DW_OP_GNU_parameter_ref': ('request', 'true'),
+    'DW_OP_form_tls_address': ('request', 'n >= 1 && value_to_u64(s[n - 1], m) is Ok'), 'DW_OP_call_frame_cfa': ('request', 'true'),
+}
+GEN1 = '<R: Reader<Offset = usize>, S: EvaluationStorage<R>>(a: Evaluation<R, S>) -> bool'
+
+
+def total_clauses():
+    groups = {}
+    for names, kinds, _, _ in op.OPS:
+        fixed = all(k in op.FIXED for k in kinds)
+        if names[0] in TOTAL:
+            if not fixed:
+                raise Lost('totality table names an operation with variable-size operands: ' + names[0])
+            g, ok = TOTAL[names[0]]
+            size = 1 + sum(op.FIXED[k] for k in kinds)
+            groups.setdefault(g, []).append(f'({{ {op.operand_lets(kinds)} {op.opcode_cond(names)} && b0.len >= {size} && ({ok}) }})')
+        elif fixed and STEP[names[0]] != 'false':
+            raise Lost('fixed-size operation missing from the totality table: ' + names[0])
+    out, fns = [], []
+    for g, ds in groups.items():
+        fns.append(f'/// side conditions under which a {g} operation must succeed\nspec fn step_total_{g}{GEN1} {{\n    let b0 = a.pc.rv(); let encoding = a.encoding; {LETS}\n    '
+                   + '\n    || '.join(ds) + '\n}')
+        out.append(f'[C07:step-total-{g}] step_total_{g}(*old(self)) ==> res is Ok')
+    return out, '\n\n'.join(fns)
+
+
+
 def step_clauses():
     """(ensures clauses, text of the generated spec fns).  Each clause is a call of one small spec fn so that the
     verification condition at each of the ~130 exits of evaluate_one_operation stays small."""
@@ -301,7 +362,8 @@ def step_clauses():
     out.append('[C07:step-request-matches-continuation] res matches Ok(OperationEvaluationResult::Waiting(w, q)) ==> request_matches(w, q)')
     out.append('[C01:frame] within(old(self).pc.rv(), final(self).pc.rv()) || inside(old(self).bytecode.rv(), final(self).pc.rv())')
     out.append('[C07:step-config-frame] frame_misc(*old(self), *final(self))')
-    return out, '\n\n'.join(fns)
+    tout, tfns = total_clauses()
+    return out + tout, '\n\n'.join(fns) + '\n\n' + tfns
 
 
 def populate(ctx, sk):
@@ -412,7 +474,8 @@ def populate(ctx, sk):
         'frame_but_stack(*old(self), *final(self))'])
     step_ens, step_fns = step_clauses()
     ev.splice('evaluate_one_operation', ret='res', requires=['[C07:machine-wf] wf(*old(self))'], ensures=step_ens, canary=True,
-              before=[('self.push(Value::Generic(value as u64))?;', 'proof { assert(value >= 0 ==> (value as u64) as int == value as int) by (bit_vector); assert(value < 0 ==> (value as u64) as int == value as int + 0x1_0000_0000_0000_0000) by (bit_vector); }')])
+              before=[('let operation = Operation::parse(&mut self.pc, self.encoding)?;', 'proof { axiom_arrayvec_len(&self.stack); } // len <= capacity: a push after a pop cannot be full'),
+                      ('self.push(Value::Generic(value as u64))?;', 'proof { assert(value >= 0 ==> (value as u64) as int == value as int) by (bit_vector); assert(value < 0 ==> (value as u64) as int == value as int + 0x1_0000_0000_0000_0000) by (bit_vector); }')])
     # ---- 4. state machine
     ev.insert_members("""    // ghost accessors (contracts of pub fns may not name private fields)
     pub closed spec fn sp_phase(&self) -> Phase { phase_of(self.state) }
@@ -484,8 +547,10 @@ def populate(ctx, sk):
                         '(self.max_iterations matches Some(m) ==> self.iteration <= (if old(self).iteration > m { old(self).iteration } else { m })), // [C01:iteration-limit][C07:iteration-limit]\n'
                         'owed == 0, // [C07:complete-location-consumed]\n'},
               before=[('while !self.end_of_expression()', 'let ghost mut owed: int = 0;'),
-                      ('self.iteration += 1;', 'assert(self.max_iterations matches Some(m) && m < u32::MAX && old(self).iteration <= m ==> self.iteration < u32::MAX); // [C01:iteration-counter-no-overflow-with-limit]')],
-              after=[('OperationEvaluationResult::Complete { location } => {', 'proof { owed = 1; } // a completed location description must become a piece (or an error)'),
+                      ('self.iteration = self.iteration.saturating_add(1);', 'let ghost prev_iteration = self.iteration;')],
+              after=[('self.iteration = self.iteration.saturating_add(1);',
+                      'assert(self.iteration >= prev_iteration && (prev_iteration < u32::MAX ==> self.iteration == prev_iteration + 1) && (prev_iteration == u32::MAX ==> self.iteration == u32::MAX)); // [C01:iteration-counter-no-overflow][C07:iteration-counter-no-overflow]'),
+                     ('OperationEvaluationResult::Complete { location } => {', 'proof { owed = 1; } // a completed location description must become a piece (or an error)'),
                      (PUSH_NONE, 'proof { owed = 0; }\nassert(self.result@.last() == Piece::<R, usize> { size_in_bits: None, bit_offset: None, location }); // [C07:complete-location-whole-object]'),
                      (PUSH_SOME, 'proof { owed = 0; }\nassert(self.result@.last().location == location); // [C07:complete-location-piece]')])
     PROTO = '[C07:resume-protocol] old(self).sp_wf() && (old(self).sp_phase() is Failed || %s)'
